@@ -42,12 +42,15 @@ BaseCells == SubSeq(Template, 1, N)
 \* neighbour (without ids nothing else identifies WHICH cell was edited): only the small edit of a variant-0 cell.
 Actions(c) == (IF Tmpl = "similar" THEN (IF c.src = 0 THEN {"src1"} ELSE {}) ELSE {"src1", "src2"})
               \cup {"md", "del"} \cup
+              \* the numbers in the cell's metadata change their JSON type only (1 -> 1.0): equal for Python's ==
+              (IF c.md \in {1, 2} THEN {"mdtype"} ELSE {}) \cup
               (IF c.kind = "code" THEN {"outs", "ec", "rerun"} ELSE {"att"})
 
 Apply(c, a) ==
   CASE a = "src1"  -> [c EXCEPT !.src = IF c.src = 1 THEN 0 ELSE 1]
     [] a = "src2"  -> [c EXCEPT !.src = IF c.src = 2 THEN 0 ELSE 2]
     [] a = "md"    -> [c EXCEPT !.md = (c.md + 1) % 3]
+    [] a = "mdtype" -> [c EXCEPT !.md = c.md + 10]
     [] a = "outs"  -> [c EXCEPT !.outs = (c.outs + 2) % 7]
     [] a = "ec"    -> [c EXCEPT !.ec = (c.ec % 2) + 1]
     [] a = "rerun" -> [c EXCEPT !.ec = (c.ec % 2) + 1, !.outs = IF c.outs = 2 THEN 5 ELSE (c.outs + 1) % 7]
@@ -73,7 +76,7 @@ Other(s) == IF s = "L" THEN "R" ELSE "L"
 
 Init ==
   /\ owner \in [1..N -> {"L", "R", "N"}]
-  /\ act \in [1..N -> {"src1", "src2", "md", "del", "outs", "ec", "rerun", "att", "none"}]
+  /\ act \in [1..N -> {"src1", "src2", "md", "mdtype", "del", "outs", "ec", "rerun", "att", "none"}]
   /\ \A i \in 1..N : IF owner[i] = "N" THEN act[i] = "none" ELSE act[i] \in Actions(BaseCells[i])
   /\ ins \in [side : {"L", "R", "N"}, gap : 0..N]
   /\ ins.side = "N" => ins.gap = 0
